@@ -1,0 +1,19 @@
+//go:build verif
+
+package cli
+
+// Contracts for the goblvc verifier (see /verif/DESIGN.md). Comments only.
+//
+// C09: the command-line / bulk / HTTP verify entry point reports success only
+// for an envelope whose every signature verifies under the key and covers the
+// envelope's header (same postcondition as the library's Envelope.Verify).
+//@ func Verify(ctx, in, key) (err)
+//@   modifies *
+//@   ensures [signed] err == nil ==> key != nil && (exists e *gobl.Envelope :: gobl.verifiedBy(e, key))
+//
+//@ func wrapError(status, err) (r)
+//@   trusted builds a StatusError around err; nil only for a nil err
+//@   ensures err != nil ==> r != nil
+//@ func wrapErrorf(status, format, args) (r)
+//@   trusted
+//@   ensures r != nil
